@@ -26,6 +26,9 @@ func hostileName(rng *Rng) []byte {
 		"\xff\xfe\x80", "..\xff", "sub/../..", "....", ".. ", "..\\" + victimName, "./" + victimName, "sub//" + victimName,
 		"file.txt", "sub", "sub/inner.txt", "m\x8er.txt", ".hidden", victimName, "../sub/../../" + victimName,
 		"..//..//" + victimName, "%2e%2e/" + victimName, "sub/./../../" + victimName,
+		// components that only BECOME ".." if something strips or folds bytes after the path was cleaned
+		".\x00./" + victimName, ".\x00./.\x00./" + victimName, "..\x00/" + victimName, "\x00../\x00../" + victimName,
+		". ./" + victimName, ".\t./" + victimName, "..\r/..\r/" + victimName,
 	}
 	return []byte(pool[rng.Intn(len(pool))])
 }
